@@ -3,6 +3,7 @@
 package network
 
 import (
+	"github.com/piotrnar/gocoin/lib/others/siphash"
 	"os"
 	"bytes"
 	"errors"
@@ -269,5 +270,70 @@ func H_C18_CmpctBlock() {
 	zzverif.Assert("C18.cmpctblock.TxMutex", !zzverif.MutexHeld(&txpool.TxMutex))
 	if zzverif.EventCount("send:getblocktxn") == 1 {
 		zzverif.Reach("asked-for-missing")
+	}
+}
+
+// C18: "blocktxn": the reply to our getblocktxn for a compact block with one transaction missing. Payload = the
+// block hash we asked for + every byte string of the length bound. The short-id function is a stub with the two
+// possible outcomes (the delivered transaction is / is not the missing one).
+func H_C18_BlockTxn() {
+	h_stubs()
+	var hash [32]byte
+	for i := range hash {
+		hash[i] = 0x11
+	}
+	const sid = 0x0000123456789abc
+	col := &CmpctBlockCollector{Header: make([]byte, 80), Sid2idx: map[uint64]int{sid: 1}, K0: 1, K1: 2, Missing: 1}
+	known := []byte{1, 0, 0, 0, 1}
+	known = append(known, make([]byte, 36)...)
+	known = append(known, 1, 0x51, 0xff, 0xff, 0xff, 0xff, 1, 0, 0, 0, 0, 0, 0, 0, 0, 1, 0x51, 0, 0, 0, 0)
+	col.Txs = []interface{}{known, uint64(sid)}
+	c := h_conn()
+	idx := btc.NewUint256(hash[:]).BIdx()
+	c.GetBlockInProgress[idx] = &oneBlockDl{hash: btc.NewUint256(hash[:]), col: col}
+	b2g := new(OneBlockToGet)
+	b2g.Block, _ = btc.NewBlock(make([]byte, 80))
+	b2g.Block.Hash = btc.NewUint256(hash[:])
+	BlocksToGet[idx] = b2g
+	defer delete(BlocksToGet, idx)
+	delete(ReceivedBlocks, idx)
+	sidKnown := zzverif.Bool("short-id.known")
+	maxR := 64
+	zzverif.LoopBound("btc.TxSize", 1)
+	zzverif.Bound("blocktxn payload", "our block hash + every byte string of 0..64 bytes (count + at most one transaction of <= 1 input/output)")
+	R := zzverif.Len("rest", 0, maxR)
+	pl := append(append([]byte{}, hash[:]...), zzverif.Bytes("rest", R)...)
+	if zzverif.Symbolic() {
+		zzverif.Stub("siphash.Hash: the missing transaction's short id or another value; (*chain.Chain).PostCheckBlock: refuses")
+		zzverif.Replace("siphash.Hash", func(k0, k1 uint64, p []byte) uint64 {
+			if sidKnown {
+				return sid
+			}
+			return sid ^ 1
+		})
+		zzverif.Replace("(*chain.Chain).PostCheckBlock", func(ch *chain.Chain, bl *btc.Block) error { return errors.New("stub") })
+		zzverif.Replace("os.WriteFile", func(name string, data []byte, perm os.FileMode) error { return nil })
+	} else {
+		// native realiser: the short id of the delivered transaction under the real siphash; work in a scratch directory
+		// (a refused assembled block is dumped to <hash>.bin in the current directory)
+		dir, _ := os.MkdirTemp("", "zzverif_c18_")
+		old, _ := os.Getwd()
+		os.Chdir(dir)
+		defer func() { os.Chdir(old); os.RemoveAll(dir) }()
+		if cnt, n := btc.VLen(pl[32:]); n > 0 && cnt >= 0 && 32+n < len(pl) && sidKnown {
+			if sz := btc.TxSize(pl[32+n:]); sz > 0 {
+				var h btc.Uint256
+				h.Calc(pl[32+n : 32+n+sz])
+				delete(col.Sid2idx, sid)
+				col.Sid2idx[siphash.Hash(col.K0, col.K1, h.Hash[:])&0xffffffffffff] = 1
+			}
+		}
+	}
+	cmd := &BCmsg{cmd: "blocktxn", pl: pl}
+	panicked := zzverif.Panics(func() { c.ProcessBlockTxn(cmd) })
+	zzverif.Assert("C18.blocktxn.nopanic", !panicked)
+	h_locks_free(c, "C18.blocktxn.unlocked")
+	if _, still := col.Txs[1].(uint64); !still {
+		zzverif.Reach("filled")
 	}
 }
